@@ -30,6 +30,7 @@ MODULE_OF = {
     'Fit.Links.Link_decode_is_apiOf': 'FitProps.LinksApi',
     # (C) DecoderApi.run against (D') DecHist.history, call by call (FitProps/LinksHist.lean, notes/links.md)
     'Fit.Links.Link_dechist_eq_api_partial': 'FitProps.LinksHist',
+    'Fit.Links.Link_dechist_values_partial': 'FitProps.LinksHist',
     'Fit.Links.Link_C08_ops_values_partial': 'FitProps.LinksHist',
     'Fit.Links.Link_C08_ops_values_partial_two': 'FitProps.LinksHist',
     'Fit.Links.Link_C07_any_reader_partial': 'FitProps.LinksHist',
